@@ -215,8 +215,11 @@ def subspaces(tier, seed):
     SEL = ("size", "count", "sum", "min", "first", "last")
     sp = []
     K_ = KernelSpace
-    L = 4 if q else 6
+    L = 4 if q else 5
     sp.append(K_(f"nomask-f8-n0to{L}", AF, 0, L, "f8", "none", seed=seed))
+    if not q:
+        # length 6 (the property's bound) with two groups: 6-symbol alphabet, 46 656 words
+        sp.append(K_("nomask-f8-G2-n6", AF2, 6, 6, "f8", "none", seed=seed))
     sp.append(K_(f"nomask-f8-lifo-n0to{3 if q else 4}", AF, 0, 3 if q else 4, "f8", "none",
                  lifo=True, seed=seed))
     sp.append(K_(f"boolmask-f8-full-n1to{2 if q else 3}", AFM, 1, 2 if q else 3, "f8", "bool",
@@ -226,7 +229,8 @@ def subspaces(tier, seed):
         sp.append(K_("boolmask-f8-A2-n4", W.A(2), 4, 4, "f8", "bool", seed=seed))
     else:
         sp.append(K_("boolmask-f8-A3-n4", W.A(G), 4, 4, "f8", "bool", seed=seed))
-        sp.append(K_("boolmask-f8-A2-n5to6", W.A(2), 5, 6, "f8", "bool", seed=seed))
+        sp.append(K_("boolmask-f8-A2-n5", W.A(2), 5, 5, "f8", "bool", seed=seed))
+        sp.append(K_("boolmask-f8-A1-n6", W.A(1), 6, 6, "f8", "bool", seed=seed))
     sp.append(K_(f"allboolmasks-f8-n1to{3 if q else 4}", AF, 1, 3 if q else 4, "f8", "allbool",
                  splits="T12" if q else "all", seed=seed))
     sp.append(K_("slices-f8-n0to3", AF2 if q else AF, 0, 3, "f8", "slice", splits="T12",
@@ -241,10 +245,10 @@ def subspaces(tier, seed):
     Ld = 3 if q else 5
     for dt in ("f4", "M8[ns]", "m8[ns]"):
         sp.append(K_(f"dtype-{dt}-n1to{Ld}", AF, 1, Ld, dt, "none", seed=seed))
-        sp.append(K_(f"dtype-{dt}-boolmask-n1to{Ld-1}", AFM, 1, Ld - 1, dt, "bool", seed=seed))
+        sp.append(K_(f"dtype-{dt}-boolmask-n1to{min(Ld-1, 3)}", AFM, 1, min(Ld - 1, 3), dt, "bool", seed=seed))
     for dt in ("i8", "i4", "u1", "b"):
         sp.append(K_(f"dtype-{dt}-n1to{Ld+1}", KN, 1, Ld + 1, dt, "none", seed=seed))
-        sp.append(K_(f"dtype-{dt}-boolmask-n1to{Ld}", KNM, 1, Ld, dt, "bool", seed=seed))
+        sp.append(K_(f"dtype-{dt}-boolmask-n1to{min(Ld, 4)}", KNM, 1, min(Ld, 4), dt, "bool", seed=seed))
     if not q:
         for dt in ("i8big", "i2", "i1", "u8", "M8[us]", "M8[s]", "m8[us]"):
             alpha = AF if C.can_null(dt) else KN
